@@ -258,19 +258,49 @@ Definition fexp_g (x : list R) : list R := vscale Rops (2 * fexp_v x / INR (leng
 Definition fcauchy_v (x : list R) : R := ln (1 + dot Rops x x).
 Definition fcauchy_g (x : list R) : list R := vscale Rops (2 / (1 + dot Rops x x)) x.
 
-(* chained CB3 I, faithful to the branch structure of the code:
-   if v1 > max(v2, v3) then grad v1 else if v2 > max(v1, v3) then grad v2 else grad v3 *)
+(* chained CB3 I and II, faithful to the branch structure of the code (after /repo 114b02b: non-strict comparisons, so that on
+   an exact tie the gradient of an ACTIVE piece is returned):
+   if v1 >= max(v2, v3) then grad v1 else if v2 >= max(v1, v3) then grad v2 else grad v3 *)
+Definition Rgeb (a b : R) : bool := negb (Rltb a b).
 Definition cb3_v1 (a b : R) : R := a * a * (a * a) + b * b.
 Definition cb3_v2 (a b : R) : R := (2 - a) * (2 - a) + (2 - b) * (2 - b).
 Definition cb3_v3 (a b : R) : R := 2 * exp (- a + b).
+(* gradients of the three pieces with respect to (a, b) *)
+Definition cb3_p1a (_ a b : R) : R := 4 * (a * (a * a)).
+Definition cb3_p1b (_ a b : R) : R := 2 * b.
+Definition cb3_p2a (_ a b : R) : R := - (4 - 2 * a).
+Definition cb3_p2b (_ a b : R) : R := - (4 - 2 * b).
+Definition cb3_p3a (_ a b : R) : R := - (2 * exp (b - a)).
+Definition cb3_p3b (_ a b : R) : R := 2 * exp (b - a).
 Definition cb3_phi (_ a b : R) : R := Rmax (cb3_v1 a b) (Rmax (cb3_v2 a b) (cb3_v3 a b)).
-Definition cb3_pa (_ a b : R) : R :=
-  if Rltb (Rmax (cb3_v2 a b) (cb3_v3 a b)) (cb3_v1 a b) then 4 * (a * (a * a))
-  else if Rltb (Rmax (cb3_v1 a b) (cb3_v3 a b)) (cb3_v2 a b) then - (4 - 2 * a)
-  else - (2 * exp (b - a)).
-Definition cb3_pb (_ a b : R) : R :=
-  if Rltb (Rmax (cb3_v2 a b) (cb3_v3 a b)) (cb3_v1 a b) then 2 * b
-  else if Rltb (Rmax (cb3_v1 a b) (cb3_v3 a b)) (cb3_v2 a b) then - (4 - 2 * b)
-  else 2 * exp (b - a).
+Definition cb3_pa (w a b : R) : R :=
+  if Rgeb (cb3_v1 a b) (Rmax (cb3_v2 a b) (cb3_v3 a b)) then cb3_p1a w a b
+  else if Rgeb (cb3_v2 a b) (Rmax (cb3_v1 a b) (cb3_v3 a b)) then cb3_p2a w a b
+  else cb3_p3a w a b.
+Definition cb3_pb (w a b : R) : R :=
+  if Rgeb (cb3_v1 a b) (Rmax (cb3_v2 a b) (cb3_v3 a b)) then cb3_p1b w a b
+  else if Rgeb (cb3_v2 a b) (Rmax (cb3_v1 a b) (cb3_v3 a b)) then cb3_p2b w a b
+  else cb3_p3b w a b.
 Definition cb3I_v (x : list R) : R := chain_v Rops cb3_phi (bias2 Rops x) x.
 Definition cb3I_g (x : list R) : list R := chain_g Rops cb3_pa cb3_pb 0 (bias2 Rops x) x.
+
+(* the rule BEFORE 114b02b (strict comparisons): on a tie v1 = v2 > v3 the gradient of the inactive v3 was returned *)
+Definition cb3_pa_old (w a b : R) : R :=
+  if Rltb (Rmax (cb3_v2 a b) (cb3_v3 a b)) (cb3_v1 a b) then cb3_p1a w a b
+  else if Rltb (Rmax (cb3_v1 a b) (cb3_v3 a b)) (cb3_v2 a b) then cb3_p2a w a b
+  else cb3_p3a w a b.
+Definition cb3_pb_old (w a b : R) : R :=
+  if Rltb (Rmax (cb3_v2 a b) (cb3_v3 a b)) (cb3_v1 a b) then cb3_p1b w a b
+  else if Rltb (Rmax (cb3_v1 a b) (cb3_v3 a b)) (cb3_v2 a b) then cb3_p2b w a b
+  else cb3_p3b w a b.
+Definition cb3I_g_old (x : list R) : list R := chain_g Rops cb3_pa_old cb3_pb_old 0 (bias2 Rops x) x.
+
+(* CB3 II: the maximum of the three SUMS over the chain; the gradient of the sum selected by the same tests *)
+Definition cb3_s1 (x : list R) : R := chain_v Rops (fun _ a b => cb3_v1 a b) (bias2 Rops x) x.
+Definition cb3_s2 (x : list R) : R := chain_v Rops (fun _ a b => cb3_v2 a b) (bias2 Rops x) x.
+Definition cb3_s3 (x : list R) : R := chain_v Rops (fun _ a b => cb3_v3 a b) (bias2 Rops x) x.
+Definition cb3II_v (x : list R) : R := Rmax (cb3_s1 x) (Rmax (cb3_s2 x) (cb3_s3 x)).
+Definition cb3II_g (x : list R) : list R :=
+  if Rgeb (cb3_s1 x) (Rmax (cb3_s2 x) (cb3_s3 x)) then chain_g Rops cb3_p1a cb3_p1b 0 (bias2 Rops x) x
+  else if Rgeb (cb3_s2 x) (Rmax (cb3_s1 x) (cb3_s3 x)) then chain_g Rops cb3_p2a cb3_p2b 0 (bias2 Rops x) x
+  else chain_g Rops cb3_p3a cb3_p3b 0 (bias2 Rops x) x.
